@@ -565,3 +565,25 @@ Proof.
 Qed.
 
 End PopFollow.
+
+(* ------------------------------------------------------------------ *)
+(* "Later quit/resume cycles do not replay that remainder again", inside the
+   combined model: the resumed session ran the restored level to its end
+   (omen_exit false), so the save config it carries on is
+   snd (sess_restore true cfg false); whatever probability m' a later quit
+   saves with it, the next resume restores no OMEN level. *)
+Section LaterCycles.
+Context {A : palg}.
+
+Theorem later_resume_no_replay optmax ffo_extra strict cleared' pop (g : sgram A)
+        (f : session_file A) (m' : P A) calls c n r :
+  resumed_session optmax ffo_extra strict cleared' pop g
+                  (mk_sfile m' (snd (sess_restore true (sf_omen f) false))) calls c n = Some r ->
+  rr_rest r = [].
+Proof.
+  unfold resumed_session. cbn [sf_omen sf_max_prob].
+  destruct (sf_omen f) as [[k|] o]; cbn [sess_restore sv_number sv_omn fst snd andb negb];
+    intros H; injection H as <-; reflexivity.
+Qed.
+
+End LaterCycles.
